@@ -1,6 +1,6 @@
 (* Extraction of the executable models and specs to OCaml. ExtrOcamlBasic only: bool, option, unit,
    list, prod, sumbool, sumor mapped to OCaml's; N, Z, positive, nat stay Coq datatypes. *)
-From HV Require Import Base_Bytes Spec_SHA Spec_HMAC Model_BlockHash Model_Sha2Ctx Model_Sha1Ctx Model_Hash Model_Hmac Base_Result Spec_OTP Model_Otp Spec_KDF Model_Kdf Model_CtEq Model_Token Proofs_Token Model_Args Spec_Base36 Model_Base36 Model_SecureBuffer Spec_Base32 Model_Base32 Spec_Base64 Model_Base64 Model_SecretString.
+From HV Require Import Base_Bytes Spec_SHA Spec_HMAC Model_BlockHash Model_Sha2Ctx Model_Sha1Ctx Model_Hash Model_Hmac Base_Result Spec_OTP Model_Otp Spec_KDF Model_Kdf Model_CtEq Model_Token Proofs_Token Model_Args Spec_Base36 Model_Base36 Model_SecureBuffer Spec_Base32 Model_Base32 Spec_Base64 Model_Base64 Model_SecretString Model_Release.
 Require Import ExtrOcamlBasic.
 Extraction Language OCaml.
 Extraction "model.ml"
@@ -22,4 +22,5 @@ Extraction "model.ml"
   base32_encode base32_decode b32_spec_encode b32_spec_value b32_filter b32_langb
   base64_encode base64_decode b64_spec_encode b64_filter b64_langb b64_spec_value
   ss_empty ss_step ss_reveal ss_last
+  rel_get_hmac rel_hmac_ctx rel_get_hmac_securekey rel_token_securekey rel_pbkdf2 rel_pepper rel_hkdf_extract rel_decode_secure all_released_zero
   ct_equals.
